@@ -804,9 +804,10 @@ def gen_config(g):
     else:
         faults = [f for f in all_faults if g.random() < 0.7]
     weights = {"m.new": g.choice([1, 2]), "m.call": g.choice([4, 6, 8]), "u.call": g.choice([0, 2, 4, 8]),
-               "repeat": g.choice([1, 2, 3]), "fault": g.choice([1, 2, 3]) if faults else 0}
+               "repeat": g.choice([1, 2, 3]), "variant": g.choice([0, 1, 2, 3]),
+               "fault": g.choice([1, 2, 3]) if faults else 0}
     return {"clients": g.randint(1, 4), "length": g.randint(8, 60),
-            "pmax": g.randint(1, 7) if g.random() < 0.92 else g.randint(8, 12),
+            "pmax": g.randint(1, 7) if g.random() < 0.9 else g.choice([8, 9, 12, 12, 33, 51, 65, 129]),
             "nmax": 15 if g.random() < 0.93 else g.choice([120, 1100]),
             "faults": faults, "weights": weights, "max_models": g.randint(2, 5),
             "seeds": G.seed_alphabet(g),
@@ -842,7 +843,7 @@ def cast(arr, dt, g):
 
 def gen_model(g, gs, cfg, ops, c, invalid=False):
     mtype = g.choice(cfg["types"])
-    p = g.randint(1, cfg["pmax"])
+    p = g.randint(1, cfg["pmax"]) if cfg["pmax"] <= 12 else cfg["pmax"]
     gs.nmod += 1
     mid = "m%d" % gs.nmod
     rec = {"c": c, "op": "m.new", "id": mid, "type": mtype}
@@ -858,7 +859,7 @@ def gen_model(g, gs, cfg, ops, c, invalid=False):
     W = None
     if mtype == "lganm":
         dt = g.choice(DTYPES)
-        W = G.rand_dag(g, p)
+        W = G.rand_dag(g, p, density=(None if p <= 12 else 3.0 / p))
         if invalid:
             W = U.cyclic(g, p).astype(float)
         rec["W"] = arg(cast(W, dt, g))
@@ -885,7 +886,7 @@ def gen_model(g, gs, cfg, ops, c, invalid=False):
             if "seam.raise" in cfg["faults"] and g.random() < 0.3:
                 rec["arm"] = ["np.linalg.cholesky", 1, "MemoryError"]
     else:
-        A = G.rand_dag(g, p, weighted=g.random() < 0.3)
+        A = G.rand_dag(g, p, weighted=g.random() < 0.3, density=(None if p <= 12 else 3.0 / p))
         if invalid:
             A = U.cyclic(g, p).astype(float)
         W = A
@@ -909,8 +910,11 @@ def gen_model(g, gs, cfg, ops, c, invalid=False):
     return mid
 
 
-def idx_arg(g, values):
-    """Index argument as list, ndarray or (single value) int — never a slice."""
+def idx_arg(g, values, p=None):
+    """Index argument as list, ndarray or (single value) int — never a slice.  With p given, some
+    indices are occasionally written the numpy way, counted from the end (i - p)."""
+    if p is not None and g.random() < 0.12:
+        values = [v - p if g.random() < 0.6 else v for v in values]
     if len(values) == 1 and g.random() < 0.3:
         return values[0]
     if g.random() < 0.4:
@@ -974,7 +978,7 @@ def gen_m_call(g, gs, cfg, mid, force_method=None):
             if invalid:
                 X = [p + 1]
                 rec["invalid"] = True
-            rec["args"] = {"X": idx_arg(g, X)}
+            rec["args"] = {"X": idx_arg(g, X, None if invalid else p)}
         elif method == "conditional":
             g.shuffle(nodes)
             ky = g.randint(1, max(1, p - 1))
@@ -991,13 +995,13 @@ def gen_m_call(g, gs, cfg, mid, force_method=None):
                 else:
                     x = x + [1.0]
                 rec["invalid"] = True
-            rec["args"] = {"Y": idx_arg(g, Y), "X": idx_arg(g, X) if X else [],
+            rec["args"] = {"Y": idx_arg(g, Y, None if invalid else p), "X": idx_arg(g, X, None if invalid else p) if X else [],
                            "x": (enc(np.array(x, dtype=float)) if g.random() < 0.5 else x) if x else []}
         elif method in ("regress", "mse"):
             y = g.randrange(p)
             k = g.randint(0, p)
             Xs = g.sample(nodes, k)
-            rec["args"] = {"y": y, "Xs": idx_arg(g, Xs) if Xs else []}
+            rec["args"] = {"y": y, "Xs": idx_arg(g, Xs, p) if Xs else []}
         elif method == "equal":
             others = [o for o, mm in gs.models.items() if mm["type"] == "nd" and mm["p"] == p]
             if invalid or not others:
@@ -1085,7 +1089,7 @@ def generate(run_seed, deep=False):
                 gs.repeatable.append(rec)
             continue
         if kind == "u.call":
-            rec = U.gen_utils_call(g, cfg["pmax"])
+            rec = U.gen_utils_call(g, min(cfg["pmax"], 10))
             rec["c"] = c
             if rec["fn"] in ("sampling_matrix",) and g.random() < max(cfg["sweep_rate"], 0.2):
                 rec["sweep"] = True
@@ -1107,6 +1111,19 @@ def generate(run_seed, deep=False):
                 gs.nres += 1
                 rec["keep"] = "r%d" % gs.nres
             ops.append(rec)
+            continue
+        if kind == "variant" and gs.repeatable:
+            # a near-duplicate of an earlier call: same index sets in another order, same targets with other
+            # values, same seed with other arguments (collides with anything cached under too small a key)
+            base = sc.choice(gs.repeatable[-12:])
+            rec = make_variant(g, copy.deepcopy(base))
+            if rec is not None:
+                rec["c"] = c
+                rec.pop("as_model", None)
+                rec.pop("keep", None)
+                ops.append(rec)
+                if rec["op"] != "m.call" or comparable(rec):
+                    gs.repeatable.append(rec)
             continue
         if kind == "fault" and cfg["faults"]:
             f = sc.choice(cfg["faults"])
@@ -1154,6 +1171,83 @@ def generate(run_seed, deep=False):
             r2.pop("keep", None)
             ops.append(r2)
     return cfg, ops
+
+
+def _aslist(j):
+    if isinstance(j, dict) and "__nd__" in j:
+        return list(j["__nd__"]["data"]), "nd"
+    if isinstance(j, list):
+        return list(j), "list"
+    return [j], "scalar"
+
+
+def _asarg(vals, form, dtype="<i8"):
+    if form == "nd":
+        return {"__nd__": {"dtype": dtype, "shape": [len(vals)], "data": list(vals)}}
+    return list(vals)
+
+
+def make_variant(g, rec):
+    if rec.get("op") != "m.call":
+        return None
+    a = rec.get("args", {})
+    method = rec["method"]
+    if method == "conditional":
+        X, fx = _aslist(a["X"])
+        x, fv = _aslist(a["x"])
+        if len(X) >= 2 and len(X) == len(x) and g.random() < 0.7:
+            perm = list(range(len(X)))
+            while perm == list(range(len(X))):
+                g.shuffle(perm)
+            a["X"] = _asarg([X[i] for i in perm], "list" if fx == "scalar" else fx)
+            a["x"] = _asarg([x[i] for i in perm], "list" if fv == "scalar" else fv, "<f8")
+        elif x:
+            a["x"] = _asarg([round(v + G.r2(g, 0.5, 2), 2) for v in x], "list" if fv == "scalar" else fv, "<f8")
+        else:
+            return None
+        rec.pop("invalid", None)
+    elif method == "marginal":
+        X, fx = _aslist(a["X"])
+        if len(X) < 2:
+            return None
+        g.shuffle(X)
+        a["X"] = _asarg(X, fx)
+    elif method in ("regress", "mse"):
+        Xs, fx = _aslist(a["Xs"])
+        if len(Xs) >= 2 and g.random() < 0.6:
+            g.shuffle(Xs)
+            a["Xs"] = _asarg(Xs, "list" if fx == "scalar" else fx)
+        elif Xs:
+            a["y"] = g.choice(Xs)
+        else:
+            return None
+    elif method == "sample":
+        changed = False
+        for kind in ("do", "shift", "noise"):
+            v = a.get(kind)
+            if isinstance(v, list) and v:
+                if len(v) >= 2 and g.random() < 0.4:
+                    v.reverse()                       # same interventions, other insertion order
+                else:
+                    for item in v:
+                        if isinstance(item[1], list) and len(item[1]) == 2 and all(
+                                isinstance(q, (int, float)) for q in item[1]):
+                            item[1] = [round(item[1][0] + G.r2(g, 0.5, 2), 2), round(abs(item[1][1]) + G.r2(g, 0.1, 1), 2)]
+                        elif isinstance(item[1], (int, float)):
+                            item[1] = round(item[1] + G.r2(g, 0.5, 2), 2)
+                        elif isinstance(item[1], list) and item[1] and isinstance(item[1][0], str):
+                            item[1] = G.rand_noise_spec(g)
+                changed = True
+        if not changed:
+            if "n" in a and not a.get("population"):
+                a["n"] = max(1, a["n"] + g.choice([-1, 1, 2]))
+            else:
+                return None
+    else:
+        return None
+    rec["args"] = a
+    rec["variant"] = True
+    return rec
 
 
 def derived_p(m, rec):
